@@ -117,6 +117,8 @@ Definition elem_ok (L : Z) (t : table) (b slot : Z) : Prop :=
 Definition Tinv (L : Z) (t : table) : Prop :=
   (forall i, bwf (t i)) /\ (forall b slot, 0 <= b < 2 ^ L -> occ (t b) slot -> elem_ok L t b slot).
 
+Definition At (L : Z) (t : table) (k b s : Z) : Prop := 0 <= b < 2 ^ L /\ occ (t b) s /\ bky (t b) s = k.
+
 Definition Present (L : Z) (t : table) (key : Z) : Prop :=
   exists b slot, 0 <= b < 2 ^ L /\ occ (t b) slot /\ bky (t b) slot = key.
 
@@ -144,7 +146,8 @@ Lemma add_nogrow_spec L t code key : 0 <= L <= 63 -> Tinv L t -> 0 <= code < 2 ^
   Gen_O2.pvCalcShortHash code = Gen_O2.pvCalcShortHash (hash key) ->
   (forall p, 0 <= p -> (L + 7) mod 8 <> 0 -> o2_byte code L p = o2_byte (hash key) L p) ->
   match add_nogrow t L code key with
-  | Ok t' => Tinv L t' /\ Present L t' key /\ (forall k, Present L t k -> Present L t' k)
+  | Ok t' => Tinv L t' /\ Present L t' key /\ (forall k, Present L t k -> Present L t' k) /\
+             (exists b0 s0, ~ occ (t b0) s0 /\ forall k b s, At L t' k b s <-> (At L t k b s \/ (k = key /\ b = b0 /\ s = s0 /\ 0 <= b0 < 2 ^ L)))
   | Exn => True
   | _ => False
   end.
@@ -213,7 +216,7 @@ Proof.
     destruct (Z.eqb j idx); [reflexivity|]. destruct (bwf_cnt _ (Hwf j)) as [_ ->]. reflexivity. }
   assert (Hidxr : 0 <= idx < 2 ^ L) by (rewrite Hidx; apply pidx_range; lia).
   pose proof (o2_short_range code Hcode) as Hsr.
-  split; [split|split].
+  split; [split|split; [|split]].
   - (* bucket well-formedness *)
     intros j. unfold bwf. rewrite Fsh, Fcnt. destruct (Fst j) as (He & _). split; [exact He|].
     destruct (Z.eqb_spec j idx) as [->|].
@@ -244,6 +247,16 @@ Proof.
   - intros k (b & slot & Hb & Ho & Hk). exists b, slot. split; [assumption|]. unfold occ in *. rewrite Fcnt, Fky.
     destruct (Z.eqb_spec b idx) as [->|]; [|split; assumption].
     fold c in Ho. split; [lia|]. unfold ky'. rewrite upd_other by lia. assumption.
+  - exists idx, (2 - c). split; [unfold occ; fold c; lia|]. intros k b s. unfold At, occ. rewrite Fcnt, Fky.
+    destruct (Z.eqb_spec b idx) as [->|Hne].
+    + fold c. unfold ky', upd. destruct (Z.eqb_spec s (2 - c)) as [->|Hns]; split.
+      * intros (Hb & Ho & Hk). right. repeat split; try assumption; try lia.
+      * intros [(Hb & Ho & Hk)|(-> & _)]; [lia|]. repeat split; try assumption; lia.
+      * intros (Hb & Ho & Hk). left. repeat split; try assumption; lia.
+      * intros [(Hb & Ho & Hk)|(_ & _ & Hs & _)]; [|lia]. repeat split; try assumption; lia.
+    + split.
+      * intros G. left. exact G.
+      * intros [G|(_ & Hb & _)]; [exact G|contradiction].
 Qed.
 
 (* GetHashCodePart on the raw arrays of a bucket whose slot idx holds a live element (true hash h, displacement probe) *)
@@ -273,7 +286,13 @@ Lemma relocate_item_spec L newL told tnew i : 0 <= L -> L < newL <= 63 -> Tinv L
   | Ok (told', tnew') =>
       Tinv L told' /\ Tinv newL tnew' /\ cnt (told' i) = cnt (told i) - 1 /\ (forall j, j <> i -> told' j = told j) /\
       (forall k, Present L told k -> Present L told' k \/ Present newL tnew' k) /\
-      (forall k, Present newL tnew k -> Present newL tnew' k)
+      (forall k, Present newL tnew k -> Present newL tnew' k) /\
+      (* position-level bookkeeping: exactly one stored element leaves the old table and enters a free slot of the new one *)
+      (let key := bky (told i) (3 - cnt (told i)) in
+       At L told key i (3 - cnt (told i)) /\
+       (forall k b s, At L told' k b s <-> (At L told k b s /\ ~ (b = i /\ s = 3 - cnt (told i)))) /\
+       exists b0 s0, ~ occ (tnew b0) s0 /\
+         forall k b s, At newL tnew' k b s <-> (At newL tnew k b s \/ (k = key /\ b = b0 /\ s = s0 /\ 0 <= b0 < 2 ^ newL)))
   | Exn => True
   | _ => False
   end.
@@ -300,7 +319,7 @@ Proof.
   destruct Hagree as (Hcr & Ha1 & Ha2 & Ha3).
   pose proof (add_nogrow_spec newL tnew code key ltac:(lia) Hnew Hcr Ha1 Ha2 Ha3) as Hadd.
   destruct (add_nogrow tnew newL code key) as [tnew'| | |]; try exact Hadd.
-  destruct Hadd as (Hnew' & Hpres & Hmono).
+  destruct Hadd as (Hnew' & Hpres & Hmono & Hpos).
   rewrite o2_remove_eq by (fold (cnt b); fold c; lia). fold (cnt b). fold c. cbv zeta. fold slot.
   destruct (Z.geb_spec slot slot); [|lia].
   destruct (st_dec (bst b) Henc ltac:(lia)) as (Henc' & Hdec' & Hcnt' & Hs0').
@@ -321,7 +340,7 @@ Proof.
   assert (Fsh : forall j x, (j <> i \/ x <> slot) -> bsh (told' j) x = bsh (told j) x).
   { intros j x Hx. unfold told', tupd. destruct (Z.eqb_spec j i) as [->|]; [|reflexivity]. cbn [bsh]. unfold sh'.
     rewrite !upd_other by lia. reflexivity. }
-  split; [split|split; [exact Hnew'|split; [|split; [|split]]]].
+  split; [split|split; [exact Hnew'|split; [|split; [|split; [|split]]]]].
   - intros j. unfold bwf. rewrite Fcnt. destruct (Z.eqb_spec j i) as [->|Hne].
     + split; [unfold told', tupd; rewrite Z.eqb_refl; exact Henc'|]. split; intros x Hx.
       * destruct (Z.eq_dec x slot) as [->|]; [unfold told', tupd; rewrite Z.eqb_refl; cbn [bsh]; unfold sh'; apply upd_same|].
@@ -342,6 +361,15 @@ Proof.
     + left. exists i, slot0. split; [assumption|]. unfold occ in *. rewrite Fcnt, Z.eqb_refl, Fky. fold b c in Ho0. subst slot. split; [lia|assumption].
     + left. exists b0, slot0. split; [assumption|]. unfold occ in *. rewrite Fcnt, Fky. destruct (Z.eqb_spec b0 i); [contradiction|]. split; assumption.
   - exact Hmono.
+  - fold b c slot key. split; [unfold At; fold b; split; [assumption|split; [exact Ho|reflexivity]]|]. split; [|exact Hpos].
+    intros k b1 s1. unfold At, occ. rewrite Fcnt, Fky. destruct (Z.eqb_spec b1 i) as [->|Hne].
+    + fold b c. subst slot. split.
+      * intros (Hb & Hoc1 & Hk). split; [split; [assumption|split; [lia|assumption]]|lia].
+      * intros ((Hb & Hoc1 & Hk) & Hn). split; [assumption|]. split; [|assumption].
+        destruct (Z.eq_dec s1 (3 - c)); [exfalso; apply Hn; split; [reflexivity|assumption]|lia].
+    + split.
+      * intros G. split; [exact G|]. intros [E _]. contradiction.
+      * intros [G _]. exact G.
 Qed.
 
 Definition mig_post (L newL : Z) (told tnew told' tnew' : table) : Prop :=
@@ -363,7 +391,7 @@ Proof.
   - split; [|split; [assumption|reflexivity]]. unfold mig_post. split; [exact Hold|split; [exact Hnew|split; auto]].
   - pose proof (relocate_item_spec L newL told tnew i HL HnL Hold Hnew Hi ltac:(lia)) as Hstep.
     destruct (relocate_item hash told tnew L newL i) as [[told1 tnew1]| | |]; try exact Hstep.
-    destruct Hstep as (Ho1 & Hn1 & Hc1 & Hfr1 & Hp1 & Hm1).
+    destruct Hstep as (Ho1 & Hn1 & Hc1 & Hfr1 & Hp1 & Hm1 & _).
     specialize (IH told1 tnew1 Ho1 Hn1 ltac:(lia)).
     destruct (migrate_bucket hash f told1 tnew1 L newL i) as [[told2 tnew2]| | |]; try exact IH.
     destruct IH as ((Ho2 & Hn2 & Hp2 & Hm2) & Hc2 & Hfr2).
@@ -449,7 +477,7 @@ Proof.
   - split; [assumption|]. split; [auto|intros k []].
   - pose proof (add_nogrow_spec L t (hash k) k HL Ht (hash_range k) eq_refl eq_refl ltac:(intros; reflexivity)) as Ha.
     destruct (add_nogrow t L (hash k) k) as [t1| | |]; try exact Ha.
-    destruct Ha as (Ht1 & Hp1 & Hm1). specialize (IH t1 Ht1).
+    destruct Ha as (Ht1 & Hp1 & Hm1 & _). specialize (IH t1 Ht1).
     destruct (insert_all hash t1 L r) as [t2| | |]; try exact IH.
     destruct IH as (Ht2 & Hm2 & Hin). split; [assumption|]. split.
     + intros k0 Hk0. apply Hm2, Hm1. assumption.
@@ -525,3 +553,201 @@ Proof.
     + right. exists b0, x. rewrite Ft by assumption. split; [assumption|split; assumption].
 Qed.
 End Rem.
+
+(* ---- round 4: the budgeted / throwing loops ---- *)
+Section Budget.
+Variable hash : Z -> Z.
+Hypothesis hash_range : forall k, 0 <= hash k < 2 ^ 64.
+
+(* whatever prefix was migrated before the full getter threw: both generations satisfy their table invariants and no key
+   is lost; if nothing was thrown the processed buckets are empty *)
+Lemma migrate_bucket_c_spec L newL i budget : 0 <= L -> L < newL <= 63 -> 0 <= i < 2 ^ L ->
+  forall fuel told tnew calls, Tinv hash L told -> Tinv hash newL tnew -> (Z.to_nat (cnt (told i)) < fuel)%nat ->
+  match migrate_bucket_c hash fuel told tnew L newL i budget calls with
+  | Ok (told', tnew', _, thrown) => mig_post hash L newL told tnew told' tnew' /\ (thrown = false -> cnt (told' i) = 0) /\
+                                    (forall j, j <> i -> told' j = told j)
+  | Exn => True
+  | _ => False
+  end.
+Proof.
+  intros HL HnL Hi. induction fuel as [|f IH]; intros told tnew calls Hold Hnew Hf; [lia|].
+  cbn [migrate_bucket_c]. pose proof (bwf_cnt _ (proj1 Hold i)) as [Hc _].
+  assert (Hid : mig_post hash L newL told tnew told tnew) by (unfold mig_post; split; [exact Hold|split; [exact Hnew|split; auto]]).
+  destruct (Z.eqb_spec (cnt (told i)) 0) as [Hz|Hnz]; [split; [exact Hid|split; [intros; assumption|reflexivity]]|].
+  destruct (getter_used (told i) i L newL (3 - cnt (told i)) && (budget <=? calls));
+    [split; [exact Hid|split; [intros; discriminate|reflexivity]]|].
+  pose proof (relocate_item_spec hash hash_range L newL told tnew i HL HnL Hold Hnew Hi ltac:(lia)) as Hstep.
+  destruct (relocate_item hash told tnew L newL i) as [[told1 tnew1]| | |]; try exact Hstep.
+  destruct Hstep as (Ho1 & Hn1 & Hc1 & Hfr1 & Hp1 & Hm1 & _).
+  specialize (IH told1 tnew1 (if getter_used (told i) i L newL (3 - cnt (told i)) then calls + 1 else calls) Ho1 Hn1 ltac:(lia)).
+  destruct (migrate_bucket_c hash f told1 tnew1 L newL i budget _) as [[[[told2 tnew2] c2] th]| | |]; try exact IH.
+  destruct IH as ((Ho2 & Hn2 & Hp2 & Hm2) & Hc2 & Hfr2).
+  split; [|split; [assumption|]].
+  - unfold mig_post. split; [exact Ho2|split; [exact Hn2|split]].
+    + intros k Hk. destruct (Hp1 k Hk) as [G|G]; [apply Hp2; assumption|right; apply Hm2; assumption].
+    + intros k Hk. apply Hm2, Hm1. assumption.
+  - intros j Hj. rewrite Hfr2, Hfr1 by assumption. reflexivity.
+Qed.
+
+Lemma migrate_from_c_spec L newL budget : 0 <= L -> L < newL <= 63 ->
+  forall n told tnew i calls, 0 <= i -> i + Z.of_nat n <= 2 ^ L -> Tinv hash L told -> Tinv hash newL tnew ->
+  (forall j, 0 <= j < i -> cnt (told j) = 0) ->
+  match migrate_from_c hash n told tnew L newL i budget calls with
+  | Ok (told', tnew', _, thrown) => mig_post hash L newL told tnew told' tnew' /\
+                                    (thrown = false -> forall j, 0 <= j < i + Z.of_nat n -> cnt (told' j) = 0)
+  | Exn => True
+  | _ => False
+  end.
+Proof.
+  intros HL HnL. induction n as [|m IH]; intros told tnew i calls Hi Hn Hold Hnew Hz.
+  - cbn [migrate_from_c]. split; [|intros _ j Hj; apply Hz; lia].
+    unfold mig_post. split; [exact Hold|split; [exact Hnew|split; auto]].
+  - cbn [migrate_from_c]. pose proof (bwf_cnt _ (proj1 Hold i)) as [Hc _].
+    pose proof (migrate_bucket_c_spec L newL i budget HL HnL ltac:(lia) 4%nat told tnew calls Hold Hnew ltac:(lia)) as Hb.
+    destruct (migrate_bucket_c hash 4 told tnew L newL i budget calls) as [[[[told1 tnew1] c1] th]| | |]; try exact Hb.
+    destruct Hb as ((Ho1 & Hn1 & Hp1 & Hm1) & Hc1 & Hfr1).
+    destruct th.
+    + split; [|intros; discriminate]. unfold mig_post. split; [exact Ho1|split; [exact Hn1|split; assumption]].
+    + assert (Hz1 : forall j, 0 <= j < i + 1 -> cnt (told1 j) = 0).
+      { intros j Hj. destruct (Z.eq_dec j i) as [->|]; [apply Hc1; reflexivity|]. rewrite Hfr1 by assumption. apply Hz. lia. }
+      specialize (IH told1 tnew1 (i + 1) c1 ltac:(lia) ltac:(lia) Ho1 Hn1 Hz1).
+      destruct (migrate_from_c hash m told1 tnew1 L newL (i + 1) budget c1) as [[[[told2 tnew2] c2] th2]| | |]; try exact IH.
+      destruct IH as ((Ho2 & Hn2 & Hp2 & Hm2) & Hz2).
+      split.
+      * unfold mig_post. split; [exact Ho2|split; [exact Hn2|split]].
+        -- intros k Hk. destruct (Hp1 k Hk) as [G|G]; [apply Hp2; assumption|right; apply Hm2; assumption].
+        -- intros k Hk. apply Hm2, Hm1. assumption.
+      * intros Hth j Hj. apply Hz2; [assumption|lia].
+Qed.
+
+(* a chain of older generations, oldest first, all into the newest table *)
+Definition gens_ok (newL : Z) (gens : list (table * Z)) : Prop :=
+  Forall (fun g => 0 <= snd g /\ snd g < newL /\ Tinv hash (snd g) (fst g)) gens.
+Definition in_gens (gens : list (table * Z)) (k : Z) : Prop := exists g, In g gens /\ Present (snd g) (fst g) k.
+
+Theorem migrate_gens_spec newL budget : newL <= 63 -> forall gens tnew calls, gens_ok newL gens -> Tinv hash newL tnew ->
+  match migrate_gens hash gens tnew newL budget calls with
+  | Ok (gens', tnew', _, thrown) =>
+      gens_ok newL gens' /\ Tinv hash newL tnew' /\
+      (forall k, in_gens gens k \/ Present newL tnew k -> in_gens gens' k \/ Present newL tnew' k) /\
+      (thrown = false -> gens' = [])
+  | Exn => True
+  | _ => False
+  end.
+Proof.
+  intros HnL. induction gens as [|[told L] r IH]; intros tnew calls Hg Hnew; cbn [migrate_gens].
+  - split; [constructor|]. split; [assumption|]. split; [auto|reflexivity].
+  - inversion Hg as [|g gs Hg1 Hg2]; subst. cbn [fst snd] in Hg1. destruct Hg1 as (HL0 & HLn & Hold).
+    assert (Hpos : 0 < 2 ^ L) by (apply pow2_pos; lia).
+    pose proof (migrate_from_c_spec L newL budget HL0 ltac:(lia) (Z.to_nat (2 ^ L)) told tnew 0 calls ltac:(lia) ltac:(lia) Hold Hnew
+                ltac:(intros; lia)) as Hm.
+    destruct (migrate_from_c hash (Z.to_nat (2 ^ L)) told tnew L newL 0 budget calls) as [[[[told1 tnew1] c1] th]| | |]; try exact Hm.
+    destruct Hm as ((Ho1 & Hn1 & Hp1 & Hm1) & Hz1).
+    destruct th.
+    + split; [constructor; [cbn [fst snd]; split; [assumption|split; assumption]|assumption]|]. split; [assumption|]. split; [|intros; discriminate].
+      intros k [(g & [<-|Hin] & Hk)|Hk].
+      * cbn [fst snd] in Hk. destruct (Hp1 k Hk) as [G|G]; [left; exists (told1, L); split; [left; reflexivity|exact G]|right; exact G].
+      * left. exists g. split; [right; assumption|assumption].
+      * right. apply Hm1. assumption.
+    + specialize (IH tnew1 c1 Hg2 Hn1).
+      destruct (migrate_gens hash r tnew1 newL budget c1) as [[[[r' t2] c2] th2]| | |]; try exact IH.
+      destruct IH as (Hg' & Ht2 & Hk2 & Hth2). split; [assumption|]. split; [assumption|]. split; [|assumption].
+      intros k [(g & [<-|Hin] & Hk)|Hk].
+      * cbn [fst snd] in Hk. destruct (Hp1 k Hk) as [(b & slot & Hb & Hocc & _)|G]; [exfalso|apply Hk2; right; exact G].
+        unfold occ in Hocc. rewrite (Hz1 eq_refl) in Hocc by lia. lia.
+      * apply Hk2. left. exists g. split; assumption.
+      * apply Hk2. right. apply Hm1. assumption.
+Qed.
+End Budget.
+
+(* ---- round 4: every key is in EXACTLY one generation ---- *)
+Section Excl.
+Variable hash : Z -> Z.
+Hypothesis hash_range : forall k, 0 <= hash k < 2 ^ 64.
+
+Definition Uniq (L : Z) (t : table) : Prop :=
+  forall k b s b' s', At L t k b s -> At L t k b' s' -> b = b' /\ s = s'.
+(* no key is stored twice: neither inside one generation nor across the two *)
+Definition Sep (L newL : Z) (told tnew : table) : Prop :=
+  Uniq L told /\ Uniq newL tnew /\ forall k, ~ (Present L told k /\ Present newL tnew k).
+Definition Good (L newL : Z) (told tnew : table) : Prop := Tinv hash L told /\ Tinv hash newL tnew /\ Sep L newL told tnew.
+
+Lemma relocate_good L newL told tnew i told' tnew' : 0 <= L -> L < newL <= 63 -> 0 <= i < 2 ^ L -> cnt (told i) <> 0 ->
+  Good L newL told tnew -> relocate_item hash told tnew L newL i = Ok (told', tnew') -> Good L newL told' tnew'.
+Proof.
+  intros HL HnL Hi Hc (Hold & Hnew & Huo & Hun & Hdis) Heq.
+  pose proof (bwf_cnt _ (proj1 Hold i)) as [Hc0 _].
+  pose proof (relocate_item_spec hash hash_range L newL told tnew i HL HnL Hold Hnew Hi ltac:(lia)) as Hs. rewrite Heq in Hs.
+  destruct Hs as (Ho' & Hn' & _ & _ & _ & _ & Hat & Hpo & (b0 & s0 & Hfree & Hpn)).
+  set (key := bky (told i) (3 - cnt (told i))) in *. set (lo := 3 - cnt (told i)) in *.
+  split; [exact Ho'|]. split; [exact Hn'|]. split; [|split].
+  - intros k b s b' s' H1 H2. apply Hpo in H1. apply Hpo in H2. apply (Huo k); [apply H1|apply H2].
+  - intros k b s b' s' H1 H2. apply Hpn in H1. apply Hpn in H2.
+    destruct H1 as [H1|(E1 & -> & -> & _)], H2 as [H2|(E2 & -> & -> & _)].
+    + apply (Hun k); assumption.
+    + exfalso. subst k. apply (Hdis key). split; [exists i, lo; exact Hat|exists b, s; exact H1].
+    + exfalso. subst k. apply (Hdis key). split; [exists i, lo; exact Hat|exists b', s'; exact H2].
+    + split; reflexivity.
+  - intros k [(b & s & H1) (b' & s' & H2)]. apply Hpo in H1. destruct H1 as [H1 Hne]. apply Hpn in H2.
+    destruct H2 as [H2|(E & _)].
+    + apply (Hdis k). split; [exists b, s; exact H1|exists b', s'; exact H2].
+    + subst k. destruct (Huo key b s i lo H1 Hat) as [-> ->]. apply Hne. split; reflexivity.
+Qed.
+
+Lemma migrate_bucket_c_good L newL i budget : 0 <= L -> L < newL <= 63 -> 0 <= i < 2 ^ L ->
+  forall fuel told tnew calls, Good L newL told tnew ->
+  match migrate_bucket_c hash fuel told tnew L newL i budget calls with
+  | Ok (told', tnew', _, _) => Good L newL told' tnew'
+  | _ => True
+  end.
+Proof.
+  intros HL HnL Hi. induction fuel as [|f IH]; intros told tnew calls Hg; [exact I|].
+  cbn [migrate_bucket_c]. destruct (Z.eqb_spec (cnt (told i)) 0) as [Hz|Hnz]; [exact Hg|].
+  destruct (getter_used (told i) i L newL (3 - cnt (told i)) && (budget <=? calls)); [exact Hg|].
+  destruct (relocate_item hash told tnew L newL i) as [[told1 tnew1]| | |] eqn:E; try exact I.
+  apply IH. apply (relocate_good L newL told tnew i told1 tnew1 HL HnL Hi Hnz Hg E).
+Qed.
+
+Lemma migrate_from_c_good L newL budget : 0 <= L -> L < newL <= 63 ->
+  forall n told tnew i calls, 0 <= i -> i + Z.of_nat n <= 2 ^ L -> Good L newL told tnew ->
+  match migrate_from_c hash n told tnew L newL i budget calls with
+  | Ok (told', tnew', _, _) => Good L newL told' tnew'
+  | _ => True
+  end.
+Proof.
+  intros HL HnL. induction n as [|m IH]; intros told tnew i calls Hi Hn Hg; [exact Hg|].
+  cbn [migrate_from_c].
+  pose proof (migrate_bucket_c_good L newL i budget HL HnL ltac:(lia) 4%nat told tnew calls Hg) as Hb.
+  destruct (migrate_bucket_c hash 4 told tnew L newL i budget calls) as [[[[told1 tnew1] c1] th]| | |]; try exact I.
+  destruct th; [exact Hb|]. apply IH; [lia|lia|exact Hb].
+Qed.
+
+(* whatever prefix was migrated before the throw: both generations satisfy their table invariants and every key that was in
+   one of them is now in EXACTLY one of them (on its true-hash path, by the invariants) *)
+Theorem migrate_from_c_exactly_one L newL budget told tnew calls : 0 <= L -> L < newL <= 63 -> Good L newL told tnew ->
+  match migrate_from_c hash (Z.to_nat (2 ^ L)) told tnew L newL 0 budget calls with
+  | Ok (told', tnew', _, thrown) =>
+      Good L newL told' tnew' /\
+      (forall k, Present L told k \/ Present newL tnew k ->
+         (Present L told' k \/ Present newL tnew' k) /\ ~ (Present L told' k /\ Present newL tnew' k)) /\
+      (thrown = false -> forall k, Present L told k \/ Present newL tnew k -> Found hash newL tnew' k)
+  | Exn => True
+  | _ => False
+  end.
+Proof.
+  intros HL HnL Hg. pose proof Hg as (Hold & Hnew & _).
+  assert (Hpos : 0 < 2 ^ L) by (apply pow2_pos; lia).
+  pose proof (migrate_from_c_spec hash hash_range L newL budget HL HnL (Z.to_nat (2 ^ L)) told tnew 0 calls ltac:(lia) ltac:(lia) Hold Hnew
+              ltac:(intros; lia)) as Hs.
+  pose proof (migrate_from_c_good L newL budget HL HnL (Z.to_nat (2 ^ L)) told tnew 0 calls ltac:(lia) ltac:(lia) Hg) as Hgd.
+  destruct (migrate_from_c hash (Z.to_nat (2 ^ L)) told tnew L newL 0 budget calls) as [[[[told' tnew'] c'] th]| | |]; try exact Hs.
+  destruct Hs as ((Ho & Hn & Hp & Hm) & Hz). split; [exact Hgd|]. split.
+  - intros k Hk. split.
+    + destruct Hk as [Hk|Hk]; [apply Hp; exact Hk|right; apply Hm; exact Hk].
+    + destruct Hgd as (_ & _ & _ & _ & Hd). apply Hd.
+  - intros Hth k Hk. apply present_found; [exact Hn|].
+    destruct Hk as [Hk|Hk]; [|apply Hm; exact Hk].
+    destruct (Hp k Hk) as [(b & s & Hb & Hocc & _)|G]; [exfalso|exact G].
+    unfold occ in Hocc. rewrite (Hz Hth) in Hocc by lia. lia.
+Qed.
+End Excl.
